@@ -46,7 +46,10 @@ func c12Readers(x *runCtx, prop string) {
 				shape{fmt.Sprintf("major%d-len%d-last-in-array", mt, n), [][]byte{append([]byte{0x82, 0x07}, s...)}})
 		}
 	}
-	type reading struct{ name string; mk func(b []byte) io.Reader }
+	type reading struct {
+		name string
+		mk   func(b []byte) io.Reader
+	}
 	readers := []reading{
 		{"bytes.Reader", func(b []byte) io.Reader { return bytes.NewReader(b) }},
 		{"data-with-EOF", func(b []byte) io.Reader { return iotest.DataErrReader(bytes.NewReader(b)) }},
@@ -86,7 +89,7 @@ func c12Readers(x *runCtx, prop string) {
 			if got != want {
 				x.r.Violate(rep.Violation{Kind: "oracle", Check: prop + ".stream-reader", Signature: prop + ".stream-reader:" + rd.name + ":" + sh.name[:6],
 					Input: fmt.Sprintf("stream %s (%d bytes: %s) read through %s", sh.name, len(stream), trunc(gen.Hex(stream), 60), rd.name),
-					Impl: got, Model: want, PropertyFails: true})
+					Impl:  got, Model: want, PropertyFails: true})
 			}
 		}
 		// typed targets: a byte slice and an interface value for the first item
